@@ -18,6 +18,10 @@ IsEv == /\ IsEvent("is")
                                            \/ e.m[k].name # IsName(E.variants[e.m[k].j])
                                            \/ e.m[k].val # (e.m[k].j = e.i)} IN
            /\ Require(e.def = E.id /\ Len(e.m) = Len(EnabledSeq), l, "is: one predicate per enabled variant expected", Len(e.m))
+           \* d: what answered under the names a disabled variant would get (a fallback trait answers false / None exactly when
+           \* the derive generated no method of that name): for a disabled variant no predicate and no accessor exists
+           /\ Require(\A k \in 1..Len(e.d) : E.variants[e.d[k].j].dis /\ e.d[k].name = IsName(E.variants[e.d[k].j]) /\ ~e.d[k].val /\ ~e.d[k].some,
+                      l, "a method exists for a disabled variant", [def |-> E.id, value_of_variant |-> e.i, observed |-> e.d])
            /\ Require(bad = {}, l, "is predicates",
                       [def |-> E.id, value_of_variant |-> e.i, wrong |-> {e.m[k] : k \in bad},
                        expected_names |-> [k \in 1..Len(EnabledSeq) |-> IsName(E.variants[EnabledSeq[k]])]])
